@@ -231,7 +231,7 @@ theorem never_closed_for_worse {gs : List Group} (hr : Reachable gs) :
   · intro p q j hl
     rcases remove_log hl with ⟨_, _, _, he⟩ | ⟨_, _, _, _, ⟨_, he, _⟩ | ⟨_, he⟩ | ⟨_, he⟩⟩
     · cases he
-    · injection he with e1 _; exact e1
+    · cases he; rfl
     · cases he
     · cases he
 
